@@ -205,6 +205,9 @@ FIXED_TEXTS = [
     "(a=**)", "(a=*)", "(a=b*)", "(a=*b)", "(a=b**c)", "(a=\\2a)", "(1=x)", "(1.2=x)", "(01.2=x)", "(a;=x)", "(a;b=x)", "(é=x)", "(a=é)",
     "　(a=b) ", "(!(a=b)(c=d))", "(&(a=b)c=d)", "(|a=b)", "( & (a=b) )", "(a=b )", "( a=b)", "(a =b)", "(!" * 60 + "(a=b)" + ")" * 60,
     "(!" * 3000 + "(a=b)" + ")" * 3000, "(&" * 3000, "(\udc80=a)", "\udcff=a", "(a=\udc80)", "(a:\udc80:=b)", "(:\udce9:=b)", "(a\udc80>=b)", "(a;\udcc3\udca9=x)",
+    # things lenient hex readers (bytes.fromhex, int(x, 16)) tolerate after a backslash: whitespace, signs, underscores, non-ASCII digits
+    "(a=\\  )", "(cn=a*\\  *b)", "(cn=\\  *b)", "(cn=\\ \t*)", "(a=\\ f)", "(a=\\f )", "(a=\\+f)", "(a=\\-1)", "(a=\\0x)", "(a=\\1_)", "(a=\\_1)",
+    "(a=\\\u0663\u0664)", "(a=\\\uff21\uff26)", "(a=x*\\\n\n*y)", "(a=\\\t1)", "(a:=\\  )", "(a>=\\ \x0b)",
     "(a>~=b)", "(a~>=b)", "(a<=b=c)", "(a=b~=c)", "(0=x)", "(0;o=x)",
 ]
 
